@@ -1158,11 +1158,15 @@ impl TransactionBuilder {
     ///Set exact fee for the transaction. If the real fee will be bigger then the set value, the transaction will not be created on .build_tx()
     pub fn set_fee(&mut self, fee: &Coin) {
         self.fee_request = TxBuilderFee::Exactly(fee.clone());
+        // a fee computed by an earlier change calculation no longer stands: the request decides
+        self.fee = None;
     }
 
     ///Set minimal fee for the transaction. If the real fee will be bigger then the set value, the transaction will be created with the real fee.
     pub fn set_min_fee(&mut self, fee: &Coin) {
         self.fee_request = TxBuilderFee::NotLess(fee.clone());
+        // a fee computed by an earlier change calculation no longer stands: the request decides
+        self.fee = None;
     }
 
     fn set_final_fee(&mut self, fee: Coin) {
